@@ -191,7 +191,7 @@ def classify(desc):
     if desc.startswith('MUSTFIRE '): return 'mustfire'
     if desc.startswith('VF '): return 'vf'
     if desc.startswith('LIBASSERT ') or desc.startswith('ASSERT '): return 'libassert'
-    if desc.startswith('NARROW ') or desc.startswith('RT '): return 'encoding'
+    if desc.startswith('NARROW ') or desc.startswith('RT ') or desc.startswith('VF MODEL '): return 'encoding'   # 'VF MODEL ...': the code left the harness's model of an external library (inconclusive, never a violation)
     if 'unwinding assertion' in desc: return 'unwind'
     if desc.startswith('std::terminate'): return 'terminate'
     return 'safety'   # cbmc's own checks: pointer dereference, bounds, overflow, division by zero
